@@ -27,10 +27,15 @@ from resonaate.estimation.kalman.unscented_kalman_filter import UnscentedKalmanF
 from resonaate.estimation.particle.genetic_particle_filter import GeneticParticleFilter
 from resonaate.physics import maths as rmaths
 from resonaate.physics.measurements import (
+    VALID_ANGLE_MAP,
+    VALID_ANGULAR_MEASUREMENTS,
     Azimuth,
+    Elevation,
     IsAngle,
     Measurement,
     MeasurementType,
+    Range,
+    RangeRate,
 )
 from resonaate.physics.time.stardate import ScenarioTime, datetimeToJulianDate
 from resonaate.physics.transforms.methods import lla2eci, sez2eci
@@ -48,8 +53,9 @@ RULE = (
     "the same stack with all offsets off-seam, with +2*pi*k on the measured and on the predicted angles, with a "
     "measurement half a turn away, and through forecast(); compared with an independent unit-vector UKF reference and "
     "with each other. Real Azimuth/Elevation/Range(/RangeRate) stacks of 1..4 observations from sensors on one meridian "
-    "with the target on / next to / off north, all permutations. GPF: the same stub stacks through "
-    "calculateResidualsFromObservations / forecast / update on a fixed particle lattice. "
+    "with the target on / next to / off north, all permutations (quick: the 4-stack for two seam placements). GPF: "
+    "the same stub stacks through calculateResidualsFromObservations / forecast / update on a fixed particle lattice "
+    "(quick: 7 fixed orders of each 4-stack, thorough all 24). "
     "non-trivial = some angular component predicted within 1e-3 rad of its seam, or a turn count k != 0, or a "
     "non-identity permutation (helpers: value within 1e-3 of a seam or k != 0); distinct by construction (lattice "
     "points)."
@@ -240,14 +246,17 @@ JD0 = 2459304.1666666665
 def _build_stack(n, kind_names, phase, placement_mode, turn_pattern=None, kpred_pattern=None, half_turn=False, ang_scale=1.0):
     """Observations (identity order) for a multiset of observation kinds.
 
-    placement_mode: "seam" = angular component g gets PLACEMENTS[(g + phase) % len]; "off" = every angular component
-    off-seam (the reference representation).  turn_pattern / kpred_pattern: full turns added to the measured /
+    phase = (placement phase, innovation phase).  placement_mode: "seam" = angular component g gets
+    PLACEMENTS[(g + placement phase) % 6] and innovation NU_ANG[(g + innovation phase) % 6] (the two phases run through
+    all 36 combinations over the multiset index); "off" = every angular component off-seam (the reference
+    representation).  turn_pattern / kpred_pattern: full turns added to the measured /
     predicted angular component g (cycled).  half_turn: the measured angle of angular component 0 is half a turn
     away from its prediction.
     Returns (observations, info) where info lists per stacked component kind / placement / c / nu / z.
     """
     xref = _xref(n)
     obs, info = [], []
+    phase, nu_phase = phase
     g_ang = g_lin = 0
     for slot, name in enumerate(kind_names):
         comps, zvals = [], {}
@@ -255,7 +264,7 @@ def _build_stack(n, kind_names, phase, placement_mode, turn_pattern=None, kpred_
         for j, (kind, label) in enumerate(OBS_KINDS[name]):
             if kind == LIN:
                 c = [0.0, 3.0, -7.5][(slot + j) % 3]
-                nu = NU_LIN[(g_lin + phase) % len(NU_LIN)]
+                nu = NU_LIN[(g_lin + nu_phase) % len(NU_LIN)]
                 g_lin += 1
                 comp = _Comp(label, kind, _hvec(n, slot, j), c, xref)
                 z = c + nu
@@ -269,7 +278,7 @@ def _build_stack(n, kind_names, phase, placement_mode, turn_pattern=None, kpred_
                     c = seam + off
                 else:
                     place, c = "off", OFF_SEAM[kind]
-                nu = NU_ANG[(g_ang + 2 * phase) % len(NU_ANG)]
+                nu = NU_ANG[(g_ang + nu_phase) % len(NU_ANG)]
                 if half_turn and g_ang == 0:
                     nu = PI
                 kz = turn_pattern[g_ang % len(turn_pattern)] if turn_pattern else 0
@@ -336,26 +345,34 @@ def _dev_p(a, b, sig):
 
 
 def _tol(n, alpha, kappa, exp, base=1e-11):
-    """Tolerance (in units of the prior sigma / innovation sigma) for comparing two evaluations of one update.
+    """(tol_mean, tol_cov): tolerances in units of the prior sigma / innovation sigma for comparing two evaluations of
+    one update (mean-type quantities: est_x, innovation, mean_pred_y; covariance-type: innov_cvr, cross_cvr, est_p).
 
-    Error source: every weighted mean (pred_x, mean_pred_y) is a sum with weights of total magnitude W = sum|w_mean|
-    (2.7e6 for alpha = 1e-3, n = 4; 1.7 for alpha = 1) of terms of size |value|, so its rounding error is
-    <= eps * W * |value|; in sigma units eps * W * ratio with ratio = max |value| / sigma over the state components,
-    the linear measurement components and 2*pi / sigma_y for the angular ones.  It reaches the posterior through
-    K * (mean error), i.e. times amp = max(1, |innovation| / sigma_y).  tol = max(base, 50 * eps * W * ratio) * amp;
-    measured deviations on the current tree are <= 0.1 of it.  For alpha = 1e-3 this is 1e-6 .. 2e-4 sigma, for
-    alpha >= 0.5 it is 1e-11 .. 1e-9 sigma.  The defects this must expose move the posterior by >= 1e-2 sigma (a
-    missing/extra wrap is a multiple of 2*pi >= 60 sigma_y, a linear mean across the seam is 2*pi*w_i, a wrong flag
-    changes an innovation by >= 4e-3 rad = 0.04 sigma_y), i.e. >= 2 orders of margin in the worst configuration and
-    >= 7 orders for alpha >= 0.5 (every lattice point is run under both).
+    Error sources.  (a) every weighted mean (pred_x, mean_pred_y) is a sum with weights of total magnitude
+    W = sum|w_mean| (2.7e6 for alpha = 1e-3, n = 4; 1.7 for alpha = 1) of terms of size |value|: rounding error
+    <= eps * W * |value|, in sigma units eps * W * ratio with ratio = max |value| / sigma over the state components, the
+    linear measurement components, and 2*pi / sigma_y for the angular ones.  It reaches the posterior mean through
+    K * (mean error), i.e. times amp = max(1, |innovation| / sigma_y):
+        tol_mean = max(base, 50 * eps * W * ratio) * amp         (measured deviations are <= 0.1 of it).
+    (b) sigma-point residuals are differences of values of size ratio*sigma that are gamma*sigma apart: relative error
+    eps * ratio / gamma in every covariance; a mean error e shifts all residuals and changes the covariances by
+    e * (b0 + e) where b0 is the centre sigma point's residual (unscented bias, zero for the linear stubs):
+        tol_cov = max(base, 50 * eps * ratio / gamma + tm * (b0 + tm)),  tm = 50 * eps * W * ratio.
+    For alpha = 1e-3 tol_mean is 1e-6 .. 2e-4 sigma and tol_cov 1e-9 .. 3e-7; for alpha >= 0.5 both are 1e-11 .. 1e-9.
+    The defects these must expose move the posterior by >= 1e-2 sigma (a missing/extra wrap is a multiple of 2*pi
+    >= 60 sigma_y, a linear mean across the seam is 2*pi*w_i, a wrong flag changes an innovation by >= 4e-3 rad = 0.04
+    sigma_y): >= 2 orders of margin in the worst configuration, >= 7 orders for alpha >= 0.5 (every lattice point is run
+    under both).
     """
-    wm, _, _ = ref.ut_weights(n, alpha, 2.0, kappa)
+    wm, _, gamma = ref.ut_weights(n, alpha, 2.0, kappa)
     sig0 = np.sqrt(np.diag(exp["pred_p"]))
     sy = np.sqrt(np.diag(exp["innov_cvr"]))
     val_y = np.where(exp["is_angular"], TWOPI, np.abs(exp["mean_y"]))
     ratio = max(float(np.max(np.abs(exp["pred_x"]) / sig0)), float(np.max(val_y / sy)), 1.0)
     amp = max(1.0, float(np.max(np.abs(exp["innovation"]) / sy)))
-    return max(base, 50.0 * EPS * float(np.sum(np.abs(wm))) * ratio) * amp
+    tm = 50.0 * EPS * float(np.sum(np.abs(wm))) * ratio
+    b0 = max(float(np.max(np.abs(exp["dx0"]) / sig0)), float(np.max(np.abs(exp["dy0"]) / sy)))
+    return max(base, tm) * amp, max(base, 50.0 * EPS * ratio / gamma + tm * (b0 + tm))
 
 
 def _tol_perm(exp):
@@ -377,12 +394,17 @@ def _kinds(tier):
     return KINDS_T if tier == "thorough" else KINDS_Q
 
 
-def _chunks_by_cost(multisets, target):
-    """Greedy chunks of multiset indices with roughly equal sum of (size! + 8) updates."""
+def _phases(tier):
+    """Phase offsets of the placement / innovation assignment: quick runs one (shifted by the seed), thorough all six."""
+    return list(range(6)) if tier == "thorough" else [0]
+
+
+def _chunks_by_cost(multisets, target, max_orders=24):
+    """Greedy chunks of multiset indices with roughly equal sum of (number of orders + 8) filter runs."""
     chunks, cur, cost = [], [], 0
     for idx, ms in enumerate(multisets):
         cur.append(idx)
-        cost += math.factorial(len(ms)) + 8
+        cost += min(math.factorial(len(ms)), max_orders) + 8
         if cost >= target:
             chunks.append(cur)
             cur, cost = [], 0
@@ -401,15 +423,20 @@ def items(tier, seed):
     for which in range(4):
         out.append(("angmean", tier, seed, which))
     mss = _multisets(_kinds(tier))
-    for ci, _ in enumerate(_ukf_cfgs(tier)):
-        for chunk in _chunks_by_cost(mss, 110):
-            out.append(("ukf", tier, seed, ci, chunk))
+    out.append(("flags", tier, seed))
+    for ph in _phases(tier):
+        for ci, _ in enumerate(_ukf_cfgs(tier)):
+            for chunk in _chunks_by_cost(mss, 110):
+                out.append(("ukf", tier, seed, ci, chunk, ph))
     for ai, _ in enumerate(_real_alphas(tier)):
-        for pi_, _ in enumerate(_real_placements(tier)):
-            for si, _ in enumerate(REAL_STACKS):
+        for pi_, (pname, _) in enumerate(_real_placements(tier)):
+            for si, stack in enumerate(REAL_STACKS):
+                if tier == "quick" and len(stack) == 4 and pname not in REAL_4STACK_PLACEMENTS_Q:
+                    continue  # announced lattice: quick runs the 24 orders of the 4-stack for two seam placements
                 out.append(("real", tier, seed, ai, pi_, si))
-    for chunk in _chunks_by_cost(mss, 400):
-        out.append(("gpf", tier, seed, chunk))
+    for ph in _phases(tier)[:2]:
+        for chunk in _chunks_by_cost(mss, 60 if tier == "quick" else 130, max_orders=8 if tier == "quick" else 24):
+            out.append(("gpf", tier, seed, chunk, ph))
     return out
 
 
@@ -428,7 +455,9 @@ def bounds(tier, seed):
         "real_alphas": _real_alphas(tier),
         "real_azimuth_placements": [p[0] for p in _real_placements(tier)],
         "real_stacks": [[s for s, _ in st] for st in REAL_STACKS],
+        "real_4stack_placements": list(REAL_4STACK_PLACEMENTS_Q) if tier == "quick" else "all",
         "gpf_particles": GPF_POP,
+        "gpf_orders_of_4_stacks": [list(o) for o in GPF_ORDERS_4_Q] if tier == "quick" else "all 24",
     }
 
 
@@ -644,8 +673,9 @@ def _run_angmean(res, item):
 
 
 # =================================================================================================== UKF (stubs)
-def _compare_with_reference(res, sub, case, filt, exp, tol, sig0, nontriv, item, skip_posterior=False):
+def _compare_with_reference(res, sub, case, filt, exp, tols, sig0, nontriv, item, skip_posterior=False):
     """Real filter against the independent reference; every compared quantity is its own subcheck."""
+    tol, tolc = tols
     ang = exp["is_angular"]
     flags_ok = filt.is_angular.dtype == bool and bool(np.array_equal(filt.is_angular, ang))
     res.case(f"{sub}/is_angular", case, flags_ok, nontrivial=nontriv, signature=f"C16/{sub}/is_angular",
@@ -665,17 +695,17 @@ def _compare_with_reference(res, sub, case, filt, exp, tol, sig0, nontriv, item,
             in_range = in_range and (low - 1e-12 <= filt.mean_pred_y[j] <= high + 1e-12)
     pub = {k: v for k, v in case.items() if not k.startswith("_")}
     _diag(f"{sub}/mean_pred_y", d_mean, tol)
-    _diag(f"{sub}/innov_cvr", d_s := float(np.max(np.abs(filt.innov_cvr - exp["innov_cvr"]) / np.outer(sy, sy))), tol)
+    _diag(f"{sub}/innov_cvr", d_s := float(np.max(np.abs(filt.innov_cvr - exp["innov_cvr"]) / np.outer(sy, sy))), tolc)
     res.case(f"{sub}/mean_pred_y", pub, d_mean <= tol, nontrivial=nontriv, signature=f"C16/{sub}/mean_pred_y",
              observed=filt.mean_pred_y, expected=exp["mean_y"], item=item)  # fmt: skip
     res.case(f"{sub}/mean_pred_y_range", pub, in_range, nontrivial=nontriv, signature=f"C16/{sub}/mean_pred_y_range",
              observed=filt.mean_pred_y, expected="angular means inside [low, high] of their IsAngle flag", item=item)  # fmt: skip
-    res.case(f"{sub}/innov_cvr", pub, d_s <= tol, nontrivial=nontriv, signature=f"C16/{sub}/innov_cvr", observed=d_s,
-             expected=f"<= {tol:g}", item=item)  # fmt: skip
+    res.case(f"{sub}/innov_cvr", pub, d_s <= tolc, nontrivial=nontriv, signature=f"C16/{sub}/innov_cvr", observed=d_s,
+             expected=f"<= {tolc:g}", item=item)  # fmt: skip
     d_c = float(np.max(np.abs(filt.cross_cvr - exp["cross_cvr"]) / np.outer(sig0, sy)))
-    _diag(f"{sub}/cross_cvr", d_c, tol)
-    res.case(f"{sub}/cross_cvr", pub, d_c <= tol, nontrivial=nontriv, signature=f"C16/{sub}/cross_cvr", observed=d_c,
-             expected=f"<= {tol:g}", item=item)  # fmt: skip
+    _diag(f"{sub}/cross_cvr", d_c, tolc)
+    res.case(f"{sub}/cross_cvr", pub, d_c <= tolc, nontrivial=nontriv, signature=f"C16/{sub}/cross_cvr", observed=d_c,
+             expected=f"<= {tolc:g}", item=item)  # fmt: skip
     if skip_posterior:
         return
     d_nu = float(np.max(np.abs(filt.innovation - exp["innovation"]) / sy))
@@ -685,11 +715,11 @@ def _compare_with_reference(res, sub, case, filt, exp, tol, sig0, nontriv, item,
     dp = _dev_p(filt.est_p, exp["est_p"], sig0)
     _diag(f"{sub}/innovation", d_nu, tol)
     _diag(f"{sub}/est_x", dx, tol)
-    _diag(f"{sub}/est_p", dp, tol)
+    _diag(f"{sub}/est_p", dp, tolc)
     res.case(f"{sub}/est_x", pub, dx <= tol, nontrivial=nontriv, signature=f"C16/{sub}/est_x", observed=filt.est_x,
              expected=exp["est_x"], item=item, outcome=f"1e{math.floor(math.log10(max(dx, 1e-17)))}")  # fmt: skip
-    res.case(f"{sub}/est_p", pub, dp <= tol, nontrivial=nontriv, signature=f"C16/{sub}/est_p", observed=dp,
-             expected=f"<= {tol:g}", item=item)  # fmt: skip
+    res.case(f"{sub}/est_p", pub, dp <= tolc, nontrivial=nontriv, signature=f"C16/{sub}/est_p", observed=dp,
+             expected=f"<= {tolc:g}", item=item)  # fmt: skip
 
 
 def _innovation_range(res, sub, pub, filt, kinds, nontriv, item):
@@ -698,8 +728,9 @@ def _innovation_range(res, sub, pub, filt, kinds, nontriv, item):
              observed=filt.innovation, expected="angular components in (-pi, pi]", item=item)  # fmt: skip
 
 
-def _same_posterior(res, sub, sig, pub, fa, fb, tol, sig0, nontriv, item, perm=None):
+def _same_posterior(res, sub, sig, pub, fa, fb, tols, sig0, nontriv, item, perm=None):
     """fa (variant) must reproduce fb (base) posterior; perm maps stacked component index of fa -> index in fb."""
+    tol, tolc = tols if isinstance(tols, tuple) else (tols, tols)
     dx = _dev_x(fa.est_x, fb.est_x, sig0)
     dp = _dev_p(fa.est_p, fb.est_p, sig0)
     sy = np.sqrt(np.diag(fb.innov_cvr))
@@ -708,10 +739,11 @@ def _same_posterior(res, sub, sig, pub, fa, fb, tol, sig0, nontriv, item, perm=N
     if perm is not None:
         nu_b, sy = nu_b[perm], sy[perm]
     dn = float(np.max(np.abs(nu_a - nu_b) / sy)) if nu_a.shape == nu_b.shape else float("inf")
-    ok = dx <= tol and dp <= tol and dn <= tol
-    _diag(sub, max(dx, dp, dn), tol)
+    ok = dx <= tol and dp <= tolc and dn <= tol
+    _diag(sub, max(dx, dn), tol)
+    _diag(sub + "[cov]", dp, tolc)
     res.case(sub, pub, ok, nontrivial=nontriv, signature=sig, observed={"dx_sigma": dx, "dp_sigma2": dp, "dnu_sigma": dn},
-             expected=f"<= {tol:g} prior sigma", item=item, outcome=f"1e{math.floor(math.log10(max(dx, dp, dn, 1e-17)))}")  # fmt: skip
+             expected=f"<= {tol:g} / {tolc:g} prior sigma", item=item, outcome=f"1e{math.floor(math.log10(max(dx, dp, dn, 1e-17)))}")  # fmt: skip
     return ok
 
 
@@ -732,20 +764,30 @@ def _comp_perm(kind_names, order):
 
 
 def _run_ukf_item(res, item):
-    _, tier, seed, ci, ms_idxs = item
+    _, tier, seed, ci, ms_idxs, ph = item
+    for mi in ms_idxs:
+        try:
+            _ukf_multiset(res, tier, seed, ci, mi, ph)
+        except Exception as exc:  # noqa: BLE001  an exception of the filter on a lattice point is a finding, not a harness error
+            res.violate("ukf/exception", {"cfg": list(_ukf_cfgs(tier)[ci]), "multiset": mi}, nontrivial=True,
+                        signature=f"C16/ukf/exception/{type(exc).__name__}", observed=repr(exc)[:300],
+                        item=("ukf", tier, seed, ci, [mi], ph))  # fmt: skip
+
+
+def _ukf_multiset(res, tier, seed, ci, mi, ph):
     n, alpha, kappa = _ukf_cfgs(tier)[ci]
     kinds_alpha = _kinds(tier)
     mss = _multisets(kinds_alpha)
     fmat = _LinDyn(n).fmat(DT)
     patterns = TURN_PATTERNS_T if tier == "thorough" else TURN_PATTERNS_Q
-    for mi in ms_idxs:
+    if True:
         ms = mss[mi]
         names = [kinds_alpha[i] for i in ms]
         kinds = _stack_kinds(names)
         n_ang = sum(k != LIN for k in kinds)
-        phase = (seed + mi) % 6
-        it = ("ukf", tier, seed, ci, [mi])
-        base_case = {"n": n, "alpha": alpha, "kappa": kappa, "stack": names, "phase": phase}
+        phase = ((seed + mi + ph) % 6, (seed + mi // 6 + 5 * ph) % 6)
+        it = ("ukf", tier, seed, ci, [mi], ph)
+        base_case = {"n": n, "alpha": alpha, "kappa": kappa, "stack": names, "phase": list(phase)}
 
         def reference(obs, kinds=kinds):
             z = np.array([v for ob in obs for v in ob.measurement_states])
@@ -756,7 +798,8 @@ def _run_ukf_item(res, item):
         f_s = _run_ukf(n, alpha, kappa, obs_s)
         exp_s = reference(obs_s)
         sig0 = _sigma_scale(exp_s["pred_p"])
-        tol = _tol(n, alpha, kappa, exp_s)
+        tols = _tol(n, alpha, kappa, exp_s)
+        tol, tolc = tols
         tol_perm = _tol_perm(exp_s)
         sy_min = float(np.min(np.sqrt(np.diag(exp_s["innov_cvr"]))))
         wsum = float(np.sum(np.abs(ref.ut_weights(n, alpha, 2.0, kappa)[0])))
@@ -765,7 +808,7 @@ def _run_ukf_item(res, item):
         res.case("ukf/centre_sigma_on_xref", base_case, exact_seam, signature="C16/harness/centre_sigma_point",
                  observed=f_s.sigma_points[:, 0], expected=_xref(n), item=it)  # fmt: skip
         case = {**base_case, "variant": "seam", "places": [i["place"] for i in info_s], "_kinds": kinds}
-        _compare_with_reference(res, "ukf/reference", case, f_s, exp_s, tol, sig0, seam_near, it)
+        _compare_with_reference(res, "ukf/reference", case, f_s, exp_s, tols, sig0, seam_near, it)
         pub = {k: v for k, v in case.items() if not k.startswith("_")}
         _innovation_range(res, "ukf", pub, f_s, kinds, seam_near, it)
         res.observe(f_s.est_x, f_s.est_p, f_s.innovation)
@@ -774,8 +817,8 @@ def _run_ukf_item(res, item):
         if n_ang:
             obs_o, _ = _build_stack(n, names, phase, "off")
             f_o = _run_ukf(n, alpha, kappa, obs_o)
-            _same_posterior(res, "ukf/wrap_point", "C16/ukf/wrap_point", pub, f_s, f_o, tol, sig0, True, it)
-            _compare_with_reference(res, "ukf/reference_offseam", {**case, "variant": "off"}, f_o, reference(obs_o), tol, sig0, False, it)
+            _same_posterior(res, "ukf/wrap_point", "C16/ukf/wrap_point", pub, f_s, f_o, tols, sig0, True, it)
+            _compare_with_reference(res, "ukf/reference_offseam", {**case, "variant": "off"}, f_o, reference(obs_o), tols, sig0, False, it)
             # ---------------- full turns on the measured angles / on the predicted angles
             for pat in patterns:
                 obs_t, _ = _build_stack(n, names, phase, "seam", turn_pattern=pat)
@@ -784,7 +827,7 @@ def _run_ukf_item(res, item):
                 # the measured angle z + 2*pi*k is rounded to ulp(2*pi*|k|): the innovation may move by that much
                 tol_t = tol + 4.0 * EPS * TWOPI * (kmax + 1) / sy_min
                 cpub = {**pub, "variant": "turns_measured", "k": list(pat)}
-                _same_posterior(res, "ukf/turns_measured", "C16/ukf/turns_measured", cpub, f_t, f_s, tol_t, sig0, True, it)
+                _same_posterior(res, "ukf/turns_measured", "C16/ukf/turns_measured", cpub, f_t, f_s, (tol_t, tolc), sig0, True, it)
                 _innovation_range(res, "ukf/turns_measured", cpub, f_t, kinds, True, it)
             for pat in patterns[:2]:
                 obs_p, _ = _build_stack(n, names, phase, "seam", kpred_pattern=pat)
@@ -792,7 +835,7 @@ def _run_ukf_item(res, item):
                 cpub = {**pub, "variant": "turns_predicted", "k": list(pat)}
                 # every predicted angle y + 2*pi*k is rounded to ulp(2*pi*(|k|+1)); the weighted mean amplifies it by sum|w|
                 tol_p = tol + 8.0 * EPS * TWOPI * (max(abs(k) for k in pat) + 1) * wsum / sy_min
-                _same_posterior(res, "ukf/turns_predicted", "C16/ukf/turns_predicted", cpub, f_p, f_s, tol_p, sig0, True, it)
+                _same_posterior(res, "ukf/turns_predicted", "C16/ukf/turns_predicted", cpub, f_p, f_s, (tol_p, tolc + tol_p - tol), sig0, True, it)
                 _innovation_range(res, "ukf/turns_predicted", cpub, f_p, kinds, True, it)
             # ---------------- measurement half a turn from the prediction: innovation stays in (-pi, pi]
             obs_h, _ = _build_stack(n, names, phase, "seam", half_turn=True)
@@ -809,12 +852,13 @@ def _run_ukf_item(res, item):
         # ---------------- forecast(): covariance part of the update through the same angular bookkeeping
         f_f = _run_ukf(n, alpha, kappa, obs_s, mode="forecast")
         dpf = _dev_p(f_f.est_p, f_s.est_p, sig0)
-        res.case("ukf/forecast", pub, dpf <= tol_perm and bool(np.array_equal(f_f.is_angular, f_s.is_angular)),
-                 nontrivial=seam_near, signature="C16/ukf/forecast", observed=dpf, expected=f"<= {tol_perm:g}", item=it)  # fmt: skip
+        dpr = _dev_p(f_f.est_p, exp_s["est_p"], sig0)
+        res.case("ukf/forecast", pub, dpf <= tol_perm and dpr <= tolc and bool(np.array_equal(f_f.is_angular, f_s.is_angular)),
+                 nontrivial=seam_near, signature="C16/ukf/forecast", observed=[dpf, dpr], expected=f"<= {tol_perm:g}, {tolc:g}", item=it)  # fmt: skip
         f_r = _run_ukf(n, alpha, kappa, obs_s, resample=True)
         if n_ang:
             f_ro = _run_ukf(n, alpha, kappa, _build_stack(n, names, phase, "off")[0], resample=True)
-            _same_posterior(res, "ukf/wrap_point_resample", "C16/ukf/wrap_point_resample", pub, f_r, f_ro, tol, sig0, True, it)
+            _same_posterior(res, "ukf/wrap_point_resample", "C16/ukf/wrap_point_resample", pub, f_r, f_ro, tols, sig0, True, it)
         _innovation_range(res, "ukf/resample", pub, f_r, kinds, seam_near, it)
 
         # ---------------- every permutation of the stack (seam placements)
@@ -829,7 +873,7 @@ def _run_ukf_item(res, item):
             _same_posterior(res, "ukf/permutation", "C16/ukf/permutation", cpub, f_perm, f_s, tol_perm, sig0, True, it, perm=cperm)
             _innovation_range(res, "ukf/permutation", cpub, f_perm, kinds_p, True, it)
             exp_p = reference(obs_perm, kinds_p)
-            _compare_with_reference(res, "ukf/reference_permuted", {**cpub, "_kinds": kinds_p}, f_perm, exp_p, tol, sig0, True, it)
+            _compare_with_reference(res, "ukf/reference_permuted", {**cpub, "_kinds": kinds_p}, f_perm, exp_p, tols, sig0, True, it)
             res.observe(f_perm.est_x)
 
 
@@ -863,6 +907,10 @@ REAL_STACKS = [
 # target azimuth as seen from S1 (east offset of the slant vector, km, at 1000 km slant range towards north)
 REAL_PLACEMENTS_Q = [("north+", 1e-9), ("north-", -1e-9), ("north+1e-4", 0.08), ("north-1e-4", -0.08), ("east", None)]
 REAL_PLACEMENTS_T = REAL_PLACEMENTS_Q + [("north0", 0.0), ("north+1e-3", 0.8), ("north-1e-3", -0.8), ("south", "south")]
+
+
+REAL_4STACK_PLACEMENTS_Q = ("north+", "north-1e-4")
+GPF_ORDERS_4_Q = [(3, 2, 1, 0), (1, 2, 3, 0), (2, 3, 0, 1), (1, 0, 2, 3), (0, 1, 3, 2), (0, 2, 1, 3), (3, 0, 2, 1)]
 
 
 def _real_alphas(tier):
@@ -963,7 +1011,8 @@ def _run_real_item(res, item):
     exp = ref.ref_ukf_step(x0, p0, fmat, q, alpha, 2.0, None, _real_h(obs, t0), kinds, _block_r(obs),
                            np.array([v for ob in obs for v in ob.measurement_states]))  # fmt: skip
     sig0 = _sigma_scale(exp["pred_p"])
-    tol = _tol(6, alpha, None, exp)
+    tols = _tol(6, alpha, None, exp)
+    tol, tolc = tols
     tol_perm = _tol_perm(exp)
     az_pred = [float(v) for v, lb in zip(_real_h(obs, t0)(x_pred), [lb for ob in obs for lb in ob.measurement.labels]) if lb == "azimuth_rad"]
     near = any(min(a, TWOPI - a) <= 1.001e-3 for a in az_pred)
@@ -971,7 +1020,7 @@ def _run_real_item(res, item):
     it = tuple(item)
     case = {"alpha": alpha, "placement": pname, "stack": [f"{s}:{m}" for s, m in stack], "az_pred": az_pred, "_kinds": kinds}
     pub = {k: v for k, v in case.items() if not k.startswith("_")}
-    _compare_with_reference(res, "real/reference", case, f0, exp, tol, sig0, near, it)
+    _compare_with_reference(res, "real/reference", case, f0, exp, tols, sig0, near, it)
     _innovation_range(res, "real", pub, f0, kinds, near, it)
     res.observe(f0.est_x, f0.est_p)
     # sigma points really straddle the seam?  (reported, not required)
@@ -982,7 +1031,7 @@ def _run_real_item(res, item):
         f_t = _run_real_ukf(x0, p0, q, alpha, obs_t)
         tol_t = tol + 4.0 * EPS * TWOPI * (max(abs(k) for k in pat) + 1) / min(sig_az)
         cpub = {**pub, "variant": "turns_measured", "k": list(pat)}
-        _same_posterior(res, "real/turns_measured", "C16/real/turns_measured", cpub, f_t, f0, tol_t, sig0, True, it)
+        _same_posterior(res, "real/turns_measured", "C16/real/turns_measured", cpub, f_t, f0, (tol_t, tolc), sig0, True, it)
         _innovation_range(res, "real/turns_measured", cpub, f_t, kinds, True, it)
     # ---- wrap point of the real azimuth moved by a quarter / half turn / tiny amount
     for shift in (PI / 2, PI, -1e-3, 1e-9):
@@ -991,7 +1040,7 @@ def _run_real_item(res, item):
         cpub = {**pub, "variant": "wrap_point", "shift": shift}
         # the shifted measurement rounds az + shift once more (ulp(2pi)) before the filter sees it
         tol_s = tol + 8.0 * EPS * TWOPI * float(np.sum(np.abs(ref.ut_weights(6, alpha, 2.0, None)[0]))) / min(sig_az)
-        _same_posterior(res, "real/wrap_point", "C16/real/wrap_point", cpub, f_sh, f0, tol_s, sig0, True, it)
+        _same_posterior(res, "real/wrap_point", "C16/real/wrap_point", cpub, f_sh, f0, (tol_s, tolc + tol_s - tol), sig0, True, it)
         _innovation_range(res, "real/wrap_point", cpub, f_sh, kinds, True, it)
     # ---- every permutation
     starts, pos = [], 0
@@ -1051,80 +1100,150 @@ def _gpf_reference_residuals(obs, pop):
     return np.array(rows)
 
 
+GPF_ANG_SCALE = 500.0  # the GPF scores particles with exp(-v' R v / 2) (R, not its inverse): angular R of (10 rad)^2 makes
+#                        the scores of the lattice particles differ by factors, so that "scores unchanged" is not vacuous
+
+
+def _gpf_drive(n, obs, direct=False):
+    """forecast() on one filter (particle residuals + scores), update() on a second one (innovation, formed before the
+    random resampling).  ``direct``: additionally call calculateResidualsFromObservations itself and return its value."""
+    filt = _make_gpf(n)
+    filt.forecast(obs)
+    resid = np.array(filt.particle_residuals)
+    scores = np.array(filt.scores)
+    filt3 = _make_gpf(n)
+    filt3.update(obs)
+    extra = None
+    if direct:
+        filt4 = _make_gpf(n)
+        true_y, r4 = filt4.calculateResidualsFromObservations(obs)
+        extra = (np.array(true_y), np.array(r4))
+    return filt, resid, scores, np.array(filt3.innovation), extra
+
+
 def _run_gpf_item(res, item):
-    _, tier, seed, ms_idxs = item
+    _, tier, seed, ms_idxs, ph = item
+    for mi in ms_idxs:
+        try:
+            _gpf_multiset(res, tier, seed, mi, ph)
+        except Exception as exc:  # noqa: BLE001
+            res.violate("gpf/exception", {"multiset": mi}, nontrivial=True, signature=f"C16/gpf/exception/{type(exc).__name__}",
+                        observed=repr(exc)[:300], item=("gpf", tier, seed, [mi], ph))  # fmt: skip
+
+
+def _gpf_multiset(res, tier, seed, mi, ph):
     n = 4
     kinds_alpha = _kinds(tier)
-    mss = _multisets(kinds_alpha)
-    for mi in ms_idxs:
-        ms = mss[mi]
-        names = [kinds_alpha[i] for i in ms]
-        kinds = _stack_kinds(names)
-        n_ang = sum(k != LIN for k in kinds)
-        phase = (seed + mi) % 6
-        it = ("gpf", tier, seed, [mi])
-        pub = {"stack": names, "phase": phase}
+    names = [kinds_alpha[i] for i in _multisets(kinds_alpha)[mi]]
+    kinds = _stack_kinds(names)
+    n_ang = sum(k != LIN for k in kinds)
+    phase = ((seed + mi + 3 * ph) % 6, (seed + mi // 6 + ph) % 6)
+    it = ("gpf", tier, seed, [mi], ph)
+    pub = {"stack": names, "phase": list(phase)}
+    ang = np.array([k != LIN for k in kinds])
 
-        def drive(obs):
-            filt = _make_gpf(n)
-            true_y, resid = filt.calculateResidualsFromObservations(obs)
-            resid = np.array(resid)
-            filt2 = _make_gpf(n)
-            filt2.forecast(obs)
-            scores = np.array(filt2.scores)
-            filt3 = _make_gpf(n)
-            filt3.update(obs)
-            return filt, resid, scores, np.array(filt3.innovation)
+    def circ(d):
+        return np.where(ang[:, None], np.minimum(np.abs(d), np.abs(TWOPI - np.abs(d))), np.abs(d))
 
-        obs_s, _ = _build_stack(n, names, phase, "seam")
-        f_s, r_s, sc_s, nu_s = drive(obs_s)
-        pop = _gpf_population(n)
-        want = _gpf_reference_residuals(obs_s, pop)
-        zmax = max(abs(float(v)) for ob in obs_s for v in ob.measurement_states)
-        tolr = 8 * EPS * (zmax + 2 * TWOPI)
-        ang = np.array([k != LIN for k in kinds])
-        if r_s.shape != want.shape:
-            res.violate("gpf/residuals", pub, signature="C16/gpf/residuals/shape", observed=r_s.shape, expected=want.shape, item=it)
+    obs_s, _ = _build_stack(n, names, phase, "seam", ang_scale=GPF_ANG_SCALE)
+    f_s, r_s, sc_s, nu_s, direct = _gpf_drive(n, obs_s, direct=True)
+    want = _gpf_reference_residuals(obs_s, _gpf_population(n))
+    zmax = max(abs(float(v)) for ob in obs_s for v in ob.measurement_states)
+    tolr = 8 * EPS * (zmax + 2 * TWOPI)  # roundings of pop - z, +-2pi, +pi, -pi at magnitude <= |z| + 2*2pi
+    if r_s.shape != want.shape:
+        res.violate("gpf/residuals", pub, signature="C16/gpf/residuals/shape", observed=r_s.shape, expected=want.shape, item=it)
+        return
+    d = circ(r_s - want)
+    okr = bool(np.all(d <= tolr)) and bool(np.all(r_s[ang] >= -PI)) and bool(np.all(r_s[ang] <= PI))
+    res.case("gpf/residuals", pub, okr, nontrivial=n_ang > 0, signature="C16/gpf/residuals", observed=float(np.max(d)),
+             expected=f"<= {tolr:g} and angular rows in [-pi, pi]", item=it)  # fmt: skip
+    z_all = np.array([v for ob in obs_s for v in ob.measurement_states])
+    res.case("gpf/direct_call", pub, bool(np.array_equal(direct[0], z_all)) and bool(np.array_equal(direct[1], r_s)),
+             signature="C16/gpf/direct_call", observed=direct[0], expected=z_all, item=it)  # fmt: skip
+    res.case("gpf/is_angular", pub, bool(np.array_equal(f_s.is_angular, ang)), nontrivial=n_ang > 0,
+             signature="C16/gpf/is_angular", observed=f_s.is_angular, expected=ang, item=it)  # fmt: skip
+    ok_nu = nu_s.shape == (len(kinds),) and all(-PI <= v <= PI for v, k in zip(nu_s, kinds) if k != LIN)
+    res.case("gpf/innovation_range", pub, ok_nu, nontrivial=n_ang > 0, signature="C16/gpf/innovation_range",
+             observed=nu_s, expected="angular components in [-pi, pi]", item=it)  # fmt: skip
+    discriminating = float(np.max(sc_s) / max(float(np.min(sc_s)), 1e-300)) > 1.5
+    res.outcomes[f"gpf/scores_discriminate:{discriminating}"] += 1
+    res.observe(r_s, sc_s, nu_s)
+    rmat = _block_r(obs_s)
+    gain = float(np.max(np.sum(np.abs(rmat @ want), axis=0)))  # max_particles sum_j |(R v)_j|
+    vmax = np.maximum(np.max(np.abs(want), axis=1), 1e-3)
+
+    def unchanged(sub, cpub, r_v, sc_v, nu_v, tolv, perm=None):
+        r_b, nu_b, vm = (r_s, nu_s, vmax) if perm is None else (r_s[perm], nu_s[perm], vmax[perm])
+        if r_v.shape != r_b.shape or nu_v.shape != nu_b.shape:
+            res.violate(sub, cpub, nontrivial=True, signature=f"C16/{sub}/shape", observed=[r_v.shape, nu_v.shape], item=it)
+            return
+        dv = float(np.max(circ(r_v - r_b) if perm is None else np.abs(r_v - r_b)))
+        # score = exp(-v'Rv/2) / sum: a residual change dv changes log(score) by <= sum_j |(Rv)_j| dv (twice after
+        # normalisation); the innovation is the score-weighted mean of the residual rows
+        tol_sc = (4.0 * gain * tolv + 1e-12) * float(np.max(sc_s))
+        dsc = float(np.max(np.abs(sc_v - sc_s)))
+        dn = float(np.max((np.abs(nu_v - nu_b)) / vm))
+        tol_nu = 4.0 * tolv / float(np.min(vm)) + GPF_POP * tol_sc / float(np.max(sc_s)) / GPF_POP * 4.0
+        ok = dv <= tolv and dsc <= tol_sc and dn <= tol_nu
+        res.case(sub, cpub, ok, nontrivial=discriminating or perm is not None, signature=f"C16/{sub}",
+                 observed={"dres": dv, "dscore": dsc, "dnu_rel": dn}, expected={"dres": tolv, "dscore": tol_sc, "dnu_rel": tol_nu},
+                 item=it)  # fmt: skip
+
+    if n_ang:
+        variants = [("wrap_point", {}, 1)]
+        for pat in ((1,), (-1, 2), (1000, -7)):
+            variants.append(("turns_measured", {"turn_pattern": pat}, max(abs(k) for k in pat)))
+        variants.append(("turns_predicted", {"kpred_pattern": (1, -1)}, 1))
+        for vname, kw, kmax in variants:
+            mode = "off" if vname == "wrap_point" else "seam"
+            obs_v, _ = _build_stack(n, names, phase, mode, ang_scale=GPF_ANG_SCALE, **kw)
+            _, r_v, sc_v, nu_v, _ = _gpf_drive(n, obs_v)
+            tolv = 16 * EPS * TWOPI * (kmax + 2)  # measured/predicted angles carry ulp(2*pi*(|k|+1)) each
+            unchanged(f"gpf/{vname}", {**pub, "variant": vname, **{k: list(v) for k, v in kw.items()}}, r_v, sc_v, nu_v, tolv)
+    orders = list(itertools.permutations(range(len(names))))
+    if tier == "quick" and len(names) == 4:
+        orders = GPF_ORDERS_4_Q  # announced lattice: quick runs 7 fixed orders of a GPF 4-stack, thorough all 24
+    for order in orders:
+        if list(order) == sorted(order):
             continue
-        d = np.abs(r_s - want)
-        d = np.where(ang[:, None], np.minimum(d, np.abs(TWOPI - d)), d)
-        okr = bool(np.all(d <= tolr)) and bool(np.all(r_s[ang] >= -PI)) and bool(np.all(r_s[ang] <= PI))
-        res.case("gpf/residuals", pub, okr, nontrivial=n_ang > 0, signature="C16/gpf/residuals", observed=float(np.max(d)),
-                 expected=f"<= {tolr:g} and angular rows in [-pi, pi]", item=it)  # fmt: skip
-        res.case("gpf/is_angular", pub, bool(np.array_equal(f_s.is_angular, ang)), nontrivial=n_ang > 0,
-                 signature="C16/gpf/is_angular", observed=f_s.is_angular, expected=ang, item=it)  # fmt: skip
-        ok_nu = all(-PI <= v <= PI for v, k in zip(nu_s, kinds) if k != LIN)
-        res.case("gpf/innovation_range", pub, ok_nu, nontrivial=n_ang > 0, signature="C16/gpf/innovation_range",
-                 observed=nu_s, expected="angular components in [-pi, pi]", item=it)  # fmt: skip
-        spread = float(np.max(sc_s) / max(np.min(sc_s), 1e-300))
-        res.outcomes[f"gpf/scores_discriminate:{spread > 2.0}"] += 1
-        res.observe(r_s, sc_s, nu_s)
-        sy = np.maximum(np.max(np.abs(want), axis=1), 1e-3)
-        if n_ang:
-            variants = [("wrap_point", _build_stack(n, names, phase, "off")[0], 1)]
-            for pat in ((1,), (-1, 2), (1000, -7)):
-                variants.append((f"turns_measured{list(pat)}", _build_stack(n, names, phase, "seam", turn_pattern=pat)[0], max(abs(k) for k in pat)))
-            variants.append(("turns_predicted", _build_stack(n, names, phase, "seam", kpred_pattern=(1, -1))[0], 1))
-            for vname, obs_v, kmax in variants:
-                _, r_v, sc_v, nu_v = drive(obs_v)
-                tolv = 16 * EPS * TWOPI * (kmax + 2)
-                dv = np.abs(r_v - r_s)
-                dv = np.where(ang[:, None], np.minimum(dv, np.abs(TWOPI - dv)), dv)
-                dn = np.abs(nu_v - nu_s)
-                # scores are exp(-v'Rv/2) normalised: d(score)/score <= |R| |v| dv summed over components
-                ok = bool(np.all(dv <= tolv)) and bool(np.all(np.abs(sc_v - sc_s) <= 1e-9 * np.max(sc_s))) and bool(np.all(dn <= 100 * tolv + 1e-9 * sy))
-                res.case("gpf/" + vname.split("[")[0], {**pub, "variant": vname}, ok, nontrivial=True,
-                         signature="C16/gpf/" + vname.split("[")[0], observed={"dres": float(np.max(dv)), "dscore": float(np.max(np.abs(sc_v - sc_s))), "dnu": float(np.max(dn))},
-                         expected="unchanged up to rounding", item=it)  # fmt: skip
-        for order in itertools.permutations(range(len(names))):
-            if list(order) == sorted(order):
-                continue
-            cperm = _comp_perm(names, order)
-            _, r_p, sc_p, nu_p = drive([obs_s[s] for s in order])
-            ok = r_p.shape == r_s.shape and bool(np.array_equal(r_p, r_s[cperm])) and bool(np.all(np.abs(sc_p - sc_s) <= 1e-9 * np.max(sc_s))) \
-                and bool(np.all(np.abs(nu_p - nu_s[cperm]) <= 1e-9 * sy[cperm]))  # fmt: skip
-            res.case("gpf/permutation", {**pub, "order": list(order)}, ok, nontrivial=True, signature="C16/gpf/permutation",
-                     observed={"dscore": float(np.max(np.abs(sc_p - sc_s)))}, expected="rows permuted, scores unchanged", item=it)  # fmt: skip
+        cperm = _comp_perm(names, order)
+        _, r_p, sc_p, nu_p, _ = _gpf_drive(n, [obs_s[s] for s in order])
+        unchanged("gpf/permutation", {**pub, "order": list(order)}, r_p, sc_p, nu_p, 0.0, perm=cperm)
+
+
+# =================================================================================================== flags
+def _run_flags(res, item):
+    """Per-component IsAngle bookkeeping of the real measurement classes (documented ranges are the reference)."""
+    it = tuple(item)
+    want = {"azimuth_rad": IsAngle.ANGLE_0_2PI, "elevation_rad": IsAngle.ANGLE_NEG_PI_PI, "range_km": IsAngle.NOT_ANGLE,
+            "range_rate_km_p_sec": IsAngle.NOT_ANGLE}  # fmt: skip
+    for cls in (Azimuth, Elevation, Range, RangeRate):
+        res.case("flags/type", {"label": cls.LABEL}, cls().is_angular == want[cls.LABEL], nontrivial=True,
+                 signature=f"C16/flags/type/{cls.LABEL}", observed=int(cls().is_angular), expected=int(want[cls.LABEL]), item=it)  # fmt: skip
+    ok_map = (
+        set(VALID_ANGLE_MAP) == {IsAngle.ANGLE_0_2PI, IsAngle.ANGLE_NEG_PI_PI}
+        and tuple(VALID_ANGLE_MAP[IsAngle.ANGLE_0_2PI]) == (0.0, TWOPI)
+        and tuple(VALID_ANGLE_MAP[IsAngle.ANGLE_NEG_PI_PI]) == (-PI, PI)
+        and set(VALID_ANGULAR_MEASUREMENTS) == set(VALID_ANGLE_MAP)
+        and IsAngle.NOT_ANGLE not in VALID_ANGULAR_MEASUREMENTS
+    )
+    res.case("flags/range_map", {}, ok_map, nontrivial=True, signature="C16/flags/range_map",
+             observed={int(k): list(v) for k, v in VALID_ANGLE_MAP.items()}, item=it)  # fmt: skip
+    # every ordered selection of 1..4 distinct measurement labels: flags follow the label order, through Measurement
+    # and through a real Observation
+    sen = np.array([7000.0, 0.0, 0.0, 0.0, 7.5, 0.0])
+    for m in range(1, 5):
+        for labels in itertools.permutations(LABELS, m):
+            meas = Measurement.fromMeasurementLabels(list(labels), np.diag([1e-4] * m))
+            exp = [want[lb] for lb in labels]
+            vals = {lb: 0.25 * (j + 1) for j, lb in enumerate(labels)}
+            ob = Observation(JD0, 1, 2, "Radar", sen, meas, **vals)
+            ok = list(meas.angular_values) == exp and list(ob.angular_values) == exp and list(meas.labels) == list(labels) \
+                and bool(np.array_equal(ob.measurement_states, np.array([vals[lb] for lb in labels])))  # fmt: skip
+            res.case("flags/measurement_order", {"labels": list(labels)}, ok, nontrivial=m > 1,
+                     signature="C16/flags/measurement_order", observed=[int(a) for a in meas.angular_values],
+                     expected=[int(a) for a in exp], item=it)  # fmt: skip
+    res.observe(ok_map)
 
 
 # =================================================================================================== dispatch
@@ -1138,6 +1257,8 @@ def run_item(item):
         _run_residual(res, item)
     elif kind == "angmean":
         _run_angmean(res, item)
+    elif kind == "flags":
+        _run_flags(res, item)
     elif kind == "ukf":
         _run_ukf_item(res, item)
     elif kind == "real":
